@@ -159,12 +159,28 @@ func awaitPandoraTermination(pandora *engine.Engine, gracefulShutdown func(), er
 			log.Fatal("Unexpected signal received. Quiting.", zap.Stringer("signal", sig))
 		}
 
+		timeout := time.After(interruptTimeout)
 		select {
-		case <-time.After(interruptTimeout):
+		case <-timeout:
 			log.Fatal("Interrupt timeout exceeded")
 		case sig := <-sigs:
 			log.Fatal("Another signal received. Quiting.", zap.Stringer("signal", sig))
 		case err := <-errs:
+			// Engine.Run returns as soon as its context is canceled, while the pools are still
+			// awaiting their tasks: aggregators drain queued samples, flush and close results.
+			// Exiting before that loses everything reported since the last flush.
+			waitDone := make(chan struct{})
+			go func() {
+				pandora.Wait()
+				close(waitDone)
+			}()
+			select {
+			case <-waitDone:
+			case <-timeout:
+				log.Fatal("Interrupt timeout exceeded")
+			case sig := <-sigs:
+				log.Fatal("Another signal received. Quiting.", zap.Stringer("signal", sig))
+			}
 			log.Fatal("Engine interrupted", zap.Error(err))
 		}
 
